@@ -29,6 +29,8 @@ func TestMain(m *testing.M) {
 	os.Exit(code)
 }
 
+var watchdog = 20 * time.Second
+
 func guarded(f func()) (perr string, timedOut bool) {
 	done := make(chan string, 1)
 	go func() {
@@ -47,7 +49,7 @@ func guarded(f func()) (perr string, timedOut bool) {
 	select {
 	case p := <-done:
 		return p, false
-	case <-time.After(20 * time.Second):
+	case <-time.After(watchdog):
 		return "", true
 	}
 }
@@ -183,8 +185,10 @@ var families = []family{
 			}
 			return e, fmt.Sprintf("p0=%v", p0), func([]float64) bool { return true }
 		},
-		step:       relStep,
-		degenerate: func(x, w []float64) bool { return false },
+		step: relStep,
+		// all (weighted) observations zero: the maximiser p = 1 is on the boundary of the parameter
+		// space (rounding may put the computed value just outside; an error is accepted)
+		degenerate: func(x, w []float64) bool { return wsum(x, w, func(v float64) float64 { return v }) == 0 },
 	},
 	{
 		name: "negative binomial", estimated: []int{1},
@@ -340,9 +344,25 @@ func checkArgmax(t *rapid.T, c *obs.Case, f family, theta []float64, d dataSet, 
 				}
 				// allowance: rounding of the sums plus what an estimate that is accurate to
 				// 1e-9 (relative, on the step scale) can lose: curvature * 1e-9 * rel
-				if delta > 1e-12*scale+1e-9*rel*scale {
+				// ... and for the normal family what the conditioning of the data permits: deviations
+				// from the mean are known to max|x|/sigma * 2^-53 only, so no algorithm working in
+				// float64 gets sigma more accurately than that
+				acc := 1e-9
+				if f.name == "normal" {
+					mx := 0.0
+					for i, x := range d.x {
+						if d.w[i] > 0 && math.Abs(x) > mx {
+							mx = math.Abs(x)
+						}
+					}
+					if a := 10 * mx / theta[1] * 1.2e-16; a > acc {
+						acc = a
+						c.Class("ill-conditioned data (accuracy allowance widened)")
+					}
+				}
+				if allow := 1e-12*scale + acc*rel*scale; delta > allow {
 					t.Fatalf("%s: the estimate %v is not a maximiser: moving parameter %d by %+g (to %v) raises the weighted log-likelihood by %g (allowance %g)",
-						c.Desc(), theta, k, th[k]-theta[k], th[k], delta, 1e-12*scale+1e-9*rel*scale)
+						c.Desc(), theta, k, th[k]-theta[k], th[k], delta, allow)
 				}
 			}
 		}
@@ -806,4 +826,219 @@ func TestC16_em_monotone_hmm(t *testing.T) {
 		}
 		c.End()
 	})
+}
+
+// ---------------------------------------------------------------------------------------------
+// (f) numeric estimators stop at a stationary point of the weighted log-likelihood
+
+func digamma(x float64) float64 {
+	r := 0.0
+	for x < 8 {
+		r -= 1 / x
+		x++
+	}
+	f := 1 / (x * x)
+	return r + math.Log(x) - 0.5/x - f*(1.0/12-f*(1.0/120-f*(1.0/252-f*(1.0/240-f/132))))
+}
+
+type numFamily struct {
+	name  string
+	grad  func(th []float64, x float64) []float64
+	build func(th []float64) (statistics.ScalarPdf, error)
+	drawX func(t *rapid.T, label string) float64
+	init  func(t *rapid.T, x []float64) []float64
+}
+
+var numFamilies = []numFamily{
+	{
+		name: "normal",
+		grad: func(th []float64, x float64) []float64 {
+			d := x - th[0]
+			return []float64{d / (th[1] * th[1]), -1/th[1] + d*d/(th[1]*th[1]*th[1])}
+		},
+		build: func(th []float64) (statistics.ScalarPdf, error) {
+			return scalarDistribution.NewNormalDistribution(NewFloat64(th[0]), NewFloat64(th[1]))
+		},
+		drawX: func(t *rapid.T, label string) float64 { return rapid.Float64Range(-3, 3).Draw(t, label) },
+		init: func(t *rapid.T, x []float64) []float64 {
+			return []float64{rapid.Float64Range(-2, 2).Draw(t, "mu0"), rapid.Float64Range(0.7, 3).Draw(t, "sigma0")}
+		},
+	},
+	{
+		name: "gamma",
+		grad: func(th []float64, x float64) []float64 {
+			return []float64{math.Log(th[1]) - digamma(th[0]) + math.Log(x), th[0]/th[1] - x}
+		},
+		build: func(th []float64) (statistics.ScalarPdf, error) {
+			return scalarDistribution.NewGammaDistribution(NewFloat64(th[0]), NewFloat64(th[1]))
+		},
+		drawX: func(t *rapid.T, label string) float64 { return rapid.Float64Range(0.2, 6).Draw(t, label) },
+		init: func(t *rapid.T, x []float64) []float64 {
+			return []float64{rapid.Float64Range(0.8, 4).Draw(t, "alpha0"), rapid.Float64Range(0.4, 2).Draw(t, "beta0")}
+		},
+	},
+	{
+		name: "exponential",
+		grad: func(th []float64, x float64) []float64 { return []float64{1/th[0] - x} },
+		build: func(th []float64) (statistics.ScalarPdf, error) {
+			return scalarDistribution.NewExponentialDistribution(NewFloat64(th[0]))
+		},
+		drawX: func(t *rapid.T, label string) float64 { return rapid.Float64Range(0.1, 5).Draw(t, label) },
+		init: func(t *rapid.T, x []float64) []float64 {
+			return []float64{rapid.Float64Range(0.3, 3).Draw(t, "lambda0")}
+		},
+	},
+}
+
+func TestC16_numeric_stationary(t *testing.T) {
+	rapid.Check(t, func(t *rapid.T) {
+		f := numFamilies[rapid.IntRange(0, len(numFamilies)-1).Draw(t, "family")]
+		method := rapid.SampledFrom([]string{"newton", "newton", "bfgs"}).Draw(t, "method") // "rprop" has no iteration bound and did not return within 20 s in 12 of 12 trials: termination is C20's subject
+		n := rapid.IntRange(3, 30).Draw(t, "n")
+		d := dataSet{x: make([]float64, n), w: make([]float64, n)}
+		for i := range d.x {
+			d.x[i] = f.drawX(t, fmt.Sprintf("x[%d]", i))
+			d.w[i] = 1
+		}
+		if rapid.Bool().Draw(t, "weighted") {
+			d.gamma = make([]float64, n)
+			for i := range d.gamma {
+				if rapid.IntRange(0, 5).Draw(t, fmt.Sprintf("gz%d", i)) == 0 && i > 2 {
+					d.gamma[i] = math.Inf(-1)
+				} else {
+					d.gamma[i] = rapid.Float64Range(-3, 0).Draw(t, fmt.Sprintf("gamma[%d]", i))
+				}
+				d.w[i] = math.Exp(d.gamma[i])
+			}
+		}
+		th0 := f.init(t, d.x)
+		maxIt := rapid.SampledFrom([]int{3, 20, 200, 200}).Draw(t, "maxIterations")
+		eps := rapid.SampledFrom([]float64{1e-8, 1e-6}).Draw(t, "epsilon")
+		c := obs.Begin("numeric_stationary", "%s %s theta0=%v maxIterations=%d eps=%g x=%v gamma=%v", f.name, method, th0, maxIt, eps, d.x, d.gamma)
+		c.Classf("family=%s", f.name)
+		c.Classf("method=%s", method)
+		if d.gamma != nil {
+			c.Class("weighted")
+		}
+		if distinct(d.x) < 3 {
+			c.Class("degenerate data (fewer than 3 distinct observations)")
+			c.End()
+			return
+		}
+		pdf, err := f.build(th0)
+		if err != nil {
+			t.Fatalf("%s: %v", c.Desc(), err)
+		}
+		est, _ := scalarEstimator.NewNumericEstimator(pdf)
+		est.Method, est.MaxIterations, est.Epsilon = method, maxIt, eps
+		evals := 0
+		est.Hook = func(v ConstVector, r ConstScalar) error { evals++; return nil }
+		t0 := time.Now()
+		p, to := guarded(func() { err = est.EstimateOnData(NewDenseFloat64Vector(d.x), d.gammaVector(), threadpool.Nil()) })
+		if el := time.Since(t0); el > time.Second {
+			c.Classf("slow (>1s): %s", method)
+		}
+		if to {
+			c.Class("inconclusive: watchdog")
+			c.End()
+			return
+		}
+		if p != "" {
+			t.Fatalf("%s: EstimateOnData %s", c.Desc(), p)
+		}
+		if err != nil {
+			c.Class("estimator reported an error")
+			c.End()
+			return
+		}
+		dist, _ := est.GetEstimate()
+		th := params(dist)
+		for _, v := range th {
+			if math.IsNaN(v) || math.IsInf(v, 0) {
+				t.Fatalf("%s: the estimate %v is not finite although no error was reported", c.Desc(), th)
+			}
+		}
+		capped := false
+		switch method {
+		case "newton":
+			capped = evals > maxIt // one evaluation per iteration plus the initial one
+		case "bfgs":
+			capped = evals > maxIt // at least one evaluation per iteration
+		}
+		if capped {
+			c.Class("iteration cap reached (not asserted)")
+			c.NT(false)
+			c.End()
+			return
+		}
+		c.NT(evals >= 3)
+		// gradient of the objective -(1/n) sum w_i log p(x_i)
+		g := make([]float64, len(th))
+		scale := 0.0
+		for i, x := range d.x {
+			if d.w[i] == 0 {
+				continue
+			}
+			gi := f.grad(th, x)
+			for k := range g {
+				g[k] -= d.w[i] * gi[k] / float64(n)
+				scale += d.w[i] * math.Abs(gi[k]) / float64(n)
+			}
+		}
+		norm := 0.0
+		for _, v := range g {
+			norm += v * v
+		}
+		norm = math.Sqrt(norm)
+		if norm > eps*1.001+1e-11*scale {
+			if method == "bfgs" && c.Known("C16/numeric-estimator-ignores-a-failed-bfgs-line-search") {
+				c.Class("known finding: bfgs stopped after a failed line search")
+				c.End()
+				return
+			}
+			t.Fatalf("%s: stopped after %d evaluations at %v where the gradient of the objective has norm %g (stopping threshold %g)", c.Desc(), evals, th, norm, eps)
+		}
+		c.End()
+	})
+}
+
+// ---------------------------------------------------------------------------------------------
+// witnesses
+
+func TestKF_numeric_bfgs_start_point(t *testing.T) {
+	pdf, _ := scalarDistribution.NewGammaDistribution(NewFloat64(1), NewFloat64(1))
+	est, _ := scalarEstimator.NewNumericEstimator(pdf)
+	est.Method = "bfgs"
+	err := est.EstimateOnData(NewDenseFloat64Vector([]float64{1, 1.5, 3.5}), nil, threadpool.Nil())
+	d, _ := est.GetEstimate()
+	th := params(d)
+	obs.KFStatus("C16/numeric-estimator-ignores-a-failed-bfgs-line-search", err == nil && th[0] == 1 && th[1] == 1, fmt.Sprintf("estimate %v err %v", th, err))
+}
+
+func TestKF_normal_variance_cancellation(t *testing.T) {
+	e, _ := scalarEstimator.NewNormalEstimator(0, 1, 1e-8)
+	x := []float64{1e8, 1e8 + 1, 1e8 + 2}
+	err := e.EstimateOnData(NewDenseFloat64Vector(x), nil, threadpool.Nil())
+	d, _ := e.GetEstimate()
+	th := params(d)
+	want := math.Sqrt(2.0 / 3.0)
+	obs.KFStatus("C16/normal-estimator-variance-cancellation", err == nil && math.Abs(th[1]-want) > 1e-6, fmt.Sprintf("estimate %v (sd should be %v) err %v", th, want, err))
+}
+
+func TestKF_estimators_nan_without_weight(t *testing.T) {
+	e, _ := scalarEstimator.NewPoissonEstimator(1)
+	err := e.EstimateOnData(NewDenseFloat64Vector([]float64{1, 2}), NewDenseFloat64Vector([]float64{math.Inf(-1), math.Inf(-1)}), threadpool.Nil())
+	nan := false
+	if err == nil {
+		d, _ := e.GetEstimate()
+		nan = math.IsNaN(params(d)[0])
+	}
+	obs.KFStatus("C16/estimators-return-nan-parameters-without-positive-weight", nan, fmt.Sprintf("err %v", err))
+}
+
+func TestKF_geometric_logpdf_p1(t *testing.T) {
+	d, _ := scalarDistribution.NewGeometricDistribution(NewFloat64(1))
+	r := NullFloat64()
+	d.LogPdf(r, ConstFloat64(0))
+	obs.KFStatus("C16/geometric-logpdf-of-zero-is-nan-for-p-1", math.IsNaN(r.GetFloat64()), fmt.Sprintf("LogPdf(0) = %v", r.GetFloat64()))
 }
